@@ -56,6 +56,7 @@ const (
 	TopoSplit        Fate = "topo-split"     // split the target region first, then execute
 	TopoLeader       Fate = "topo-leader"    // move the leader first, then execute
 	TopoSplitAfter   Fate = "topo-split-aft" // execute, then split (response still delivered)
+	TopoMergeAfter   Fate = "topo-merge-aft" // execute, then merge the region with its right neighbour (response still delivered)
 )
 
 // IsRegionErr reports whether f is a synthesised region error.
@@ -735,6 +736,12 @@ func (n *Net) arrive(rec *RPCRecord, fkey string, ch chan rpcResult, ctx context
 	case f == TopoSplitAfter:
 		n.exec(rec)
 		if n.Topo != nil && n.Topo.SplitAt(firstKeyOf(rec.Req)) {
+			n.fired(fkey, rec)
+		}
+		respond(rpcResult{rec.Resp, rec.ExecErr}, 0)
+	case f == TopoMergeAfter:
+		n.exec(rec)
+		if m, ok := n.Topo.(interface{ MergeAt(key []byte) bool }); ok && m.MergeAt(firstKeyOf(rec.Req)) {
 			n.fired(fkey, rec)
 		}
 		respond(rpcResult{rec.Resp, rec.ExecErr}, 0)
